@@ -72,11 +72,20 @@ def check_read(ctx, F, A):
         seq = names(tr, ("_push_byte", "borrow_buf", "reset", "finalize", "push_byte"))
         kd = ev.get("kind")
         k = kind_of(F, st, kd["ret"]) if kd else None
+        if kd is not None and k is None and isinstance(kd["ret"], VEnum):
+            # the path does not pin the kind down to one variant: use the set of kinds it still allows
+            sg = kd["ret"].disc.single()
+            vals = st.values(sg[0]) if sg and sg[1] == 1 and kd["ret"].disc.c == 0 else None
+            if vals is not None:
+                names_ = {v["name"] for v in F.adts[ERRKIND]["variants"] if v["idx"] in vals}
+                if "WouldBlock" not in names_:
+                    kset = names_
+                    k = "|".join(sorted(names_))
         var, pay = enum_variant(F, st, p["ret"])
         ev2, ep = enum_variant(F, st, pay[0]) if var == "Err" else (None, ())
         forwarded = ev2 == "IoErr" and len(ep) == 2 and ep[0] == rbp[0] and kd is not None and \
             isinstance(kd["args"][0], VRef)
-        saw.add(k)
+        saw.update(k.split("|") if isinstance(k, str) else [k])
         if k == "WouldBlock":
             ctx.count("R-C11-WB")
             ok = forwarded and not seq and isinstance(ep[1], VInt) and st.const_of(ep[1].lin) == 0
@@ -165,37 +174,64 @@ def check_next(ctx, F, A):
             viol(ctx, "R-C11-NONE", b, "read_nb|%s" % var, "read_nb: would-block source errors map to nb::Error::WouldBlock, every other result is forwarded unchanged")
     if saw != {"ok", "wb", "other"}:
         viol(ctx, "R-C11-NONE", b, "coverage", "read_nb outcomes seen: %r" % saw)
-    # next_nb
+    # next_nb: specified directly against read() (whether it goes through read_nb or not):
+    #   Ok(x) -> Ok(Some(x)); would-block source error -> Err(WouldBlock); EOF with count 0 -> Ok(None); anything else -> Err(Other(e))
     b = body_of(F, RD, "next_nb")
     saw = set()
-    for p in paths(A, F, b, opaque_components(F, extra=("read_nb",))):
+    for p in paths(A, F, b, opaque_components(F, extra=("read",))):
         st, tr = p["st"], p["trace"]
-        rd = [e for e in tr if short(e["key"]) == "read_nb"]
+        rd = [e for e in tr if short(e["key"]) == "read" and "DecoderReader" in e["key"]]
         var, pay = enum_variant(F, st, p["ret"])
         ctx.count("R-C11-NONE")
-        if not rd:
-            viol(ctx, "R-C11-NONE", b, "noread", "next_nb() must call read_nb()")
+        if len(rd) != 1:
+            viol(ctx, "R-C11-NONE", b, "noread", "next_nb() must read from the decoder reader exactly once")
             continue
         rv, rp = enum_variant(F, st, rd[0]["ret"])
+        ev2, ep = enum_variant(F, st, rp[0]) if rv == "Err" else (None, ())
         ie = [e for e in tr if short(e["key"]) == "is_eof"]
+        wb = [e for e in tr if short(e["key"]) == "is_would_block"]
+        wb_true = bool(wb) and bool_is(st, wb[-1]["ret"], True)
+        wb_false = bool(wb) and bool_is(st, wb[-1]["ret"], False)
+        eof_true = bool(ie) and bool_is(st, ie[-1]["ret"], True)
+        zero = ev2 == "IoErr" and isinstance(ep[1], VInt) and st.const_of(ep[1].lin) == 0
+        ok = False
         if var == "Ok":
             ov, op = enum_variant(F, st, pay[0])
             if ov == "None":
-                nv, npay = enum_variant(F, st, rp[0]) if rv == "Err" else (None, ())
-                ev2, ep = enum_variant(F, st, npay[0]) if nv == "Other" else (None, ())
-                ok = ev2 == "IoErr" and st.const_of(ep[1].lin) == 0 and ie and bool_is(st, ie[-1]["ret"], True)
+                ok = ev2 == "IoErr" and zero and eof_true and not wb_true
                 saw.add("none")
             else:
-                ok = rv == "Ok" and op[0] == rp[0]
+                ok = ov == "Some" and rv == "Ok" and same_result(st, op[0], rp[0])
                 saw.add("some")
-        else:
-            ok = rv == "Err" and pay[0] == rp[0]
-            saw.add("err")
+        elif var == "Err":
+            nv, npay = enum_variant(F, st, pay[0])
+            if nv == "WouldBlock":
+                ok = ev2 == "IoErr" and wb_true
+                saw.add("wb")
+            elif nv == "Other":
+                ok = rv == "Err" and same_result(st, npay[0], rp[0]) and (ev2 != "IoErr" or (wb_false and not (zero and eof_true)))
+                saw.add("err")
         ctx.oblig(bool(ok))
         if not ok:
-            viol(ctx, "R-C11-NONE", b, "next_nb|%s" % var, "next_nb: Ok(None) only for EOF with count 0; all other results forwarded unchanged")
-    if saw != {"none", "some", "err"}:
+            viol(ctx, "R-C11-NONE", b, "next_nb|%s" % var, "next_nb: Ok(Some) for a transmission, Err(WouldBlock) for a would-block source error, Ok(None) only "
+                 "for EOF with count 0, every other error forwarded unchanged as Err(Other)")
+    if saw != {"none", "some", "wb", "err"}:
         viol(ctx, "R-C11-NONE", b, "coverage", "next_nb outcomes seen: %r" % saw)
+
+
+def same_result(st, a, b):
+    """a and b denote the same value (identical, or enums with the same constant variant and the same payload)"""
+    if a == b:
+        return True
+    if isinstance(a, VEnum) and isinstance(b, VEnum) and a.defn == b.defn:
+        ca, cb = st.const_of(a.disc), st.const_of(b.disc)
+        if ca is None or ca != cb:
+            return False
+        pa, pb = a.pay.get(ca, ()), b.pay.get(cb, ())
+        return len(pa) == len(pb) and all(same_result(st, x, y) for x, y in zip(pa, pb))
+    if isinstance(a, VInt) and isinstance(b, VInt):
+        return st.prove_eq0(a.lin - b.lin)
+    return False
 
 
 def trace_all(st):
@@ -216,24 +252,34 @@ def check_kinds(ctx, F, A):
         raise AnchorMissing("ByteSourceErr::kind for io::Error")
     b = b[0]
     iok = {v["name"]: v["discr"] for v in F.ext_enums["std::io::ErrorKind"]["variants"]}
+    # the classification is evaluated for every variant of io::ErrorKind in turn (the result of io::Error::kind() is forced
+    # to that variant), so it does not matter whether the code uses a match, an if-chain or comparisons
     table = {}
-    for p in paths(A, F, b, lambda c: False):
-        st = p["st"]
-        kd = [e for e in p["trace"] if e["key"] == "std::io::Error::kind"]
-        if len(kd) != 1:
-            continue
-        # the discriminant read of the opaque ErrorKind is the newest 'discr of opaque' symbol constrained on this path
-        name, _ = enum_variant(F, st, p["ret"])
-        dsyms = [s for s in st.rng if isinstance(ip.tab.origin(s), str) and ip.tab.origin(s).startswith("discr of opaque")]
-        dsyms += [s for s in st.sets if s not in dsyms and isinstance(ip.tab.origin(s), str) and ip.tab.origin(s).startswith("discr of opaque")]
-        for s in dsyms:
-            c = st.const_of(Lin.sym(s))
-            if c is not None:
-                table.setdefault(name, set()).add(c)
-            else:
-                table.setdefault(name, set()).add("rest")
-        if not dsyms:
-            table.setdefault(name, set()).add("rest")
+    forced = {}
+
+    def on_res(ip_, frame, bb, t, callee, args, outs):
+        r = (callee.get("resolved") or callee)["def"]
+        if r == "std::io::Error::kind" and forced.get("d") is not None:
+            d = forced["d"]
+            outs[:] = [(s2, VEnum("std::io::ErrorKind", Lin.const(d), {d: ()})) for (s2, _v) in outs]
+    ip.on_call_result.insert(0, on_res)
+    try:
+        for vname, d in sorted(iok.items(), key=lambda kv: kv[1]):
+            forced["d"] = d
+            names = set()
+            for p in paths(A, F, b, lambda c: False):
+                kd = [e for e in p["trace"] if e["key"] == "std::io::Error::kind"]
+                if len(kd) != 1:
+                    names.add("?")
+                    continue
+                names.add(enum_variant(F, p["st"], p["ret"])[0])
+            for nm in names:
+                table.setdefault(nm, set()).add(d)
+    finally:
+        forced["d"] = None
+        ip.on_call_result.remove(on_res)
+    others = set(iok.values()) - {iok["UnexpectedEof"], iok["WouldBlock"]}
+    table = {k: ({"rest"} if v == others else v) for k, v in table.items()}
     ctx.count("R-C11-KIND", 3)
     ok = table.get("Eof") == {iok["UnexpectedEof"]} and table.get("WouldBlock") == {iok["WouldBlock"]} and table.get("Other") == {"rest"}
     ctx.oblig(ok)
